@@ -212,7 +212,9 @@ func record(p textparse.Parser, callST bool, known map[int]exm) (out []obsEntry,
 				case fh != nil:
 					o.Kind, o.Hid = "hist", int(fh.Count)
 				default:
-					return out, false, fmt.Sprintf("harness: EntryHistogram without histogram after %d entries", len(out))
+					// EntryHistogram whose Histogram() is (nil, nil): recorded as a native
+					// histogram with identity -1, which no model output and no expectation has
+					o.Kind, o.Hid = "hist", -1
 				}
 			}
 			p.Labels(&l)
